@@ -968,6 +968,7 @@ func main() {
 		gen["Words/"+n+".lean"] = wordsLean("Bip39V.Gen.Words", n, words[n], true, facts.WordlistSrc[n])
 	}
 	gen["Lang.lean"] = langLean(&facts, names)
+	gen["Source.lean"] = sourceLean(&facts, allFiles)
 	gen["Consts.lean"] = constsLean(&facts)
 	for rel, c := range gen {
 		ch, err := writeIfChanged(filepath.Join(*out, rel), c)
